@@ -473,7 +473,9 @@ def known_stale_cause(sc, i):
     loaded_any = False
     cached, changed_imports, stale_dependents = set(), set(), set()
     for st in sc['steps'][:i]:
-        if st['op'] == 'load':
+        if st['op'] == 'metadata':
+            loaded_any = True          # the import lists are read (once) by load_metadata
+        elif st['op'] == 'load':
             loaded_any = True
             cached |= closure(st['name'], imports)
         elif st['op'] in ('write', 'delete'):
